@@ -43,7 +43,11 @@ RULE = ("one wheel per case: slot count N in {1..7,10,16,60,300}, interval in {1
         "execute callback of one task of a 3-5 task batch is held on a driver gate while later ticks fire further batches "
         "and further calls arrive; the drain function is held with 5-16 pending tasks, i.e. below and above drainWorkers, "
         "while ticks arrive) and a panic stream (the drain function panics on >= 8 of 12-50 pending tasks; execute callbacks "
-        "panic on >= 9 firings of one tick and on further firings across ticks, followed by later timers); non-trivial = at least one callback "
+        "panic on >= 9 firings of one tick and on further firings across ticks, followed by later timers), a drain/stop "
+        "stream (Stop while a held Drain of 9-40 tasks over all slots is still handing over) and a key re-use stream "
+        "(SetTimer/MoveTimer/RemoveTimer of key k while k's own execute callback is still running: from another goroutine "
+        "with the callback held on a gate, and from inside the callback, optionally followed by a call from outside; "
+        "delays below/at/above one revolution); non-trivial = at least one callback "
         "observed and at least one Move or re-Set of a pending key; distinct = distinct canonical case JSON")
 TRUSTED = ["the wheel model uses a plain association list for the timers index; that SafeMap refines a plain map is proved "
            "(c10_safemap_refines_map) and corresponded on its own histories (kind safemap)",
@@ -247,6 +251,73 @@ def _panic_exec(rng):
     return {"kind": "wheel", "interval": iv, "slots": n, "panic_exec": pe, "calls": calls}
 
 
+def _drain_stop(rng):
+    """Stop while a Drain with more than drainWorkers pending tasks (spread over several slots) is still handing
+    over to a held drain function: everything pending at the Drain call is handed over once"""
+    n = rng.choice([2, 3, 4, 5, 10])
+    iv = rng.choice([1, 1000])
+    nk = rng.choice([9, 12, 16, 24, 40])
+    calls = [{"op": "tick"} for _ in range(rng.randrange(n))]
+    for i, k in enumerate(LOTS[:nk]):
+        calls.append({"op": "set", "key": k, "val": i, "delay": (1 + i % (2 * n + 1)) * iv})     # every slot, some with circles
+    calls.extend({"op": "tick"} for _ in range(rng.randint(0, 2)))
+    if rng.random() < 0.3:
+        calls.append({"op": "remove", "key": rng.choice(LOTS[:nk])})
+    calls += [{"op": "holddrain"}, {"op": "drain"}]
+    if rng.random() < 0.4:
+        calls.append({"op": "tick"})
+    calls.append({"op": "stop"})
+    if rng.random() < 0.5:
+        calls.append({"op": "set", "key": "k0", "val": 1, "delay": iv})      # ErrClosed while the drain is still going on
+    if rng.random() < 0.8:
+        calls.append({"op": "releasedrain"})
+    calls.append({"op": "remove", "key": "k1"})
+    return {"kind": "wheel", "interval": iv, "slots": n, "calls": calls}
+
+
+def _reuse(rng):
+    """the key is used again while its own execute callback is still running: SetTimer / MoveTimer / RemoveTimer for
+    the same key from another goroutine (callback held on a gate) or from inside the callback itself (then possibly a
+    second call from outside); delays below, at and above one revolution"""
+    n = rng.choice([1, 2, 3, 5, 10])
+    iv = rng.choice([1, 1000])
+    s1 = rng.randint(1, n + 1)
+    s2 = rng.choice([1, max(1, n - 1), n, n + 1, 2 * n + 1, rng.randint(1, 3 * n)])
+    calls = [{"op": "tick"} for _ in range(rng.randrange(n))]
+    calls.append({"op": "set", "key": "k0", "val": 1, "delay": s1 * iv})
+    for i in range(rng.randint(0, 3)):
+        calls.append({"op": "set", "key": "k%d" % (i + 1), "val": 20 + i, "delay": rng.randint(1, 2 * n + 1) * iv})
+    case = {"kind": "wheel", "interval": iv, "slots": n}
+    inside = rng.random() < 0.5
+    held = rng.random() < 0.8 or not inside
+    if inside:
+        case["rearm"] = {"k0": {"op": rng.choice(["set", "set", "set", "remove", "move"]), "key": "k0", "val": 2, "delay": s2 * iv}}
+    if held:
+        calls.append({"op": "hold", "key": "k0"})
+    calls.extend({"op": "tick"} for _ in range(s1))                      # k0 fires; its callback is (maybe) still running
+    outside = []
+    r = rng.random()
+    if not inside or r < 0.6:
+        kind = rng.choice(["set", "set", "remove", "move", "set+remove", "set+move"])
+        s3 = rng.choice([1, n, n + 1, 2 * n + 1, rng.randint(1, 3 * n)])
+        if kind.startswith("set"):
+            outside.append({"op": "set", "key": "k0", "val": 3, "delay": (s2 if not inside else s3) * iv})
+        if kind.endswith("remove"):
+            outside.append({"op": "remove", "key": "k0"})
+        if kind.endswith("move"):
+            outside.append({"op": "move", "key": "k0", "delay": s3 * iv})
+    for o in outside:
+        calls.append(o)
+        if rng.random() < 0.3:
+            calls.append({"op": "tick"})
+    if held and rng.random() < 0.8:
+        calls.extend({"op": "tick"} for _ in range(rng.randint(0, 2)))
+        calls.append({"op": "release", "key": "k0"})
+    calls.extend({"op": "tick"} for _ in range(3 * n + 4))
+    case["calls"] = calls
+    return case
+
+
 def _gated_drain(rng):
     """Drain with more pending tasks than drainWorkers while the drain function is held; ticks arrive meanwhile"""
     n = rng.choice([1, 2, 3, 4, 5, 10])
@@ -336,13 +407,17 @@ def generate(rng, tier, n):
         cases.append({"kind": "wheel", "interval": -5, "slots": -1, "calls": []})
     while len(cases) < n:
         r = rng.random()
-        if r < 0.04:
+        if r < 0.03:
+            cases.append(_drain_stop(rng))
+        elif r < 0.09:
+            cases.append(_reuse(rng))
+        elif r < 0.12:
             cases.append(_panic_drain(rng))
-        elif r < 0.08:
+        elif r < 0.15:
             cases.append(_panic_exec(rng))
-        elif r < 0.16:
+        elif r < 0.2:
             cases.append(_gated_exec(rng))
-        elif r < 0.22:
+        elif r < 0.25:
             cases.append(_gated_drain(rng))
         elif r < 0.42:
             cases.append(_directed(rng))
@@ -406,7 +481,7 @@ def search(rng, problems):
                     calls.extend({"op": "tick"} for _ in range(3 * n + 2))
                     out.append({"kind": "wheel", "interval": 1000, "slots": n, "calls": calls})
     rng.shuffle(out)
-    return out[:300] + [_panic_drain(rng) for _ in range(12)] + [_panic_exec(rng) for _ in range(12)] + [_directed(rng) for _ in range(200)] + [_gated_exec(rng) for _ in range(60)] + [_gated_drain(rng) for _ in range(60)]
+    return out[:300] + [_drain_stop(rng) for _ in range(15)] + [_reuse(rng) for _ in range(40)] + [_panic_drain(rng) for _ in range(12)] + [_panic_exec(rng) for _ in range(12)] + [_directed(rng) for _ in range(200)] + [_gated_exec(rng) for _ in range(60)] + [_gated_drain(rng) for _ in range(60)]
 
 
 def _key(k):
@@ -443,24 +518,32 @@ def encode(case, obs):
         return _encode_safemap(case, obs)
     if obs.get("skipped"):      # the driver stopped running cases after too many of them hung
         return "CW (mkcase (1000)%Z (3)%Z [] true [] false)"
-    calls = []
-    for c in case["calls"]:
+    def term(c):
         op = c["op"]
         if op == "set":
-            calls.append("XC (CSet %s %s %s)" % (_key(c["key"]), cnat(c["val"]), cZ(c["delay"])))
-        elif op == "move":
-            calls.append("XC (CMove %s %s)" % (_key(c["key"]), cZ(c["delay"])))
-        elif op == "remove":
-            calls.append("XC (CRemove %s)" % _key(c["key"]))
-        elif op == "tick":
-            calls.append("XC CTick")
-        elif op == "drain":
-            calls.append("XC CDrain")
-        elif op in GATES:
-            calls.append("XGate")
-        else:
-            calls.append("XC CStop")
-    os_ = ["mkObs %s %s %s" % (cnat(o["err"]), _pairs(o["fired"]), _pairs(o["drained"])) for o in obs.get("obs", [])]
+            return "XC (CSet %s %s %s)" % (_key(c["key"]), cnat(c["val"]), cZ(c["delay"]))
+        if op == "move":
+            return "XC (CMove %s %s)" % (_key(c["key"]), cZ(c["delay"]))
+        if op == "remove":
+            return "XC (CRemove %s)" % _key(c["key"])
+        if op == "tick":
+            return "XC CTick"
+        if op == "drain":
+            return "XC CDrain"
+        if op in GATES:
+            return "XGate"
+        return "XC CStop"
+
+    calls, os_ = [], []
+    ol = obs.get("obs", [])
+    for i, c in enumerate(case["calls"]):
+        calls.append(term(c))
+        if i < len(ol):
+            o = ol[i]
+            os_.append("mkObs %s %s %s" % (cnat(o["err"]), _pairs(o["fired"]), _pairs(o["drained"])))
+            for r in o.get("rearmed") or []:     # wheel calls made from inside this call's callbacks: they follow it
+                calls.append(term(r))
+                os_.append("mkObs %s [] []" % cnat(r["err"]))
     return "CW (mkcase %s %s %s %s %s %s)" % (cZ(case["interval"]), cZ(case["slots"]), clist(calls), cbool(obs.get("new_ok", False)),
                                               clist(os_), cbool(bool(obs.get("hung"))))
 
@@ -512,6 +595,20 @@ def bucket(case, obs):
         out.append("obs:callback-after-last-call")
     errs = {o["err"] for o in obs.get("obs", [])}
     out += ["err:%d" % e for e in sorted(errs) if e]
+    if "holddrain" in kinds and "stop" in kinds:
+        ops_ = [c["op"] for c in case["calls"]]
+        if ops_.index("stop") > ops_.index("drain") and ("releasedrain" not in ops_ or ops_.index("stop") < ops_.index("releasedrain")):
+            out.append("gate:stop-during-held-drain")
+    if case.get("rearm"):
+        out.append("reuse:wheel-call-from-inside-own-callback(%s)" % list(case["rearm"].values())[0]["op"])
+    if "hold" in kinds:
+        held = {c["key"] for c in case["calls"] if c["op"] == "hold"}
+        seen_hold = False
+        for c in case["calls"]:
+            if c["op"] == "hold":
+                seen_hold = True
+            elif seen_hold and c["op"] in ("set", "move", "remove") and c.get("key") in held:
+                out.append("reuse:%s-of-key-while-its-callback-is-held" % c["op"])
     if case.get("panic_drain"):
         out.append("panic:drain-function(%s pending)" % ("<=20" if sum(1 for c in case["calls"] if c["op"] == "set") <= 20 else ">20"))
     if case.get("panic_exec"):
